@@ -139,7 +139,11 @@ func runC17(c *core.Ctx, o Options) {
 			sp.fn+" does not simply replace "+sp.typ+"."+sp.field+" with its argument ("+bad+"): what was there before leaks into the serialized message, or what is given is not what is kept")
 	}
 	c.Explanation += " P1 also: Message.SetBody/SetHeader/SetTrailer and KeyValue.Set are plain replacing setters (one store of the argument, or of an ordered copy of it, on the one interprocedural path; nothing else)."
-	c.RuleMin = map[string]int{"P1": 14, "S": 15, "V": 43, "T": 2, "P2": 2, "D": 18}
+	// P3 (premise, = C02.R2): entries built from a template get value objects of their own — a field populated in one group entry does
+	// not appear in the others
+	checkTypedTemplates(c, "P3")
+	c.Explanation += " P3 (= C02.R2): KeyValue.AsTemplate returns a fresh KeyValue with a fresh empty value of the same type. S also: the collectors (Items/Component/Group.ToBytes) have no return that bypasses their loop while there are items."
+	c.RuleMin = map[string]int{"P1": 14, "S": 18, "V": 43, "T": 2, "P2": 2, "P3": 1, "D": 18}
 	c.MinObl = 60
 }
 
